@@ -728,7 +728,7 @@ def check(rep: Report, tier: str, seed: int) -> None:
     # ---- Lean witnesses replayed on the real code (classified like any other mismatch) ---
     resolve_pending(rep, witness_pending(measured), rep.extra.setdefault("witness_classes", {}))
 
-    if rep.broken and not rep.failing:
+    if rep.broken and not rep.unknown_failing():
         dissipator_oracle(rep, seeded(seed * 104729 + 24), measured, 3000 if tier == "quick" else 30000)
 
 
